@@ -49,6 +49,16 @@ func c07Scenarios() []*Scenario {
 			}
 		}
 	}
+	// two connections from the misbehaving host: the second offence comes after the first ban ran
+	// out (ban 60 s, below the 90 s a peer may take to answer getheaders)
+	{
+		bs := tree(5, 0, 0)
+		bs = append(bs, BlockSpec{Parent: 0}, BlockSpec{Parent: 6})
+		sc := &Scenario{Engine: "legacy", Blocks: bs, Forbidden: 6, BadBlock: 6, BadNode: 1, BadNodes: []int{2}, BanExpected: true, BanSeconds: 60}
+		sc.Nodes = []NodeSpec{{Chain: seq(1, 5), Reliable: true}, {Chain: []int{6, 7}, Host: 1}, {Chain: []int{6, 7}, Host: 1}}
+		sc.Name = "forbidden/legacy two connections of one host, ban 60 s"
+		out = append(out, sc)
+	}
 	return out
 }
 
@@ -58,6 +68,12 @@ func runC07(t *testing.T, env core.Env, rep *core.Report) {
 	depth := 6
 	if env.Tier == "thorough" {
 		depth = 8
+	}
+	depthOf := func(sc *Scenario) int {
+		if len(sc.BadNodes) > 0 {
+			return depth + 1 // connect x2, deliver, tick x2, deliver, connect
+		}
+		return depth
 	}
 	rep.Bound = fmt.Sprintf("[%d scenarios: forbidden header / checkpoint-contradicting header at position 1..3 of the misbehaving node's chain x initial store {genesis, prefix} x checkpoint lists {at the position; that + last; first + that} x {checkpoints on, off} x {legacy, experimental (forbidden only)}; BFS depth %d over {connect, deliver, tick 35/200/600 s}, both connection orders, max 2 connects per node; ban duration 600 s]", len(scs), depth)
 	progress, _ := os.OpenFile(env.Out+".progress", os.O_CREATE|os.O_RDWR, 0o644)
@@ -72,6 +88,7 @@ func runC07(t *testing.T, env core.Env, rep *core.Report) {
 		}
 		seen := map[string]bool{}
 		frontier := [][]Event{nil}
+		depth := depthOf(sc)
 		for d := 0; d <= depth && len(frontier) > 0; d++ {
 			var next [][]Event
 			for _, hist := range frontier {
@@ -130,8 +147,9 @@ func judgeC07(rep *core.Report, sc *Scenario, hist []Event, out Outcome) bool {
 		bad = true
 		rep.Violate(core.Violation{Kind: "requests/" + sc.Engine, What: fmt.Sprintf("%s: after [%s]: %s", sc.Name, evs(hist), p), Replay: replay})
 	}
+	// (a state whose fair continuation does not converge is still expanded: the liveness verdict
+	// says nothing about the safety of its successors)
 	if !out.Converged {
-		bad = true
 		kind := "no_convergence_after_misbehaviour/" + sc.Engine
 		if out.Class != "" {
 			kind = "no_convergence/" + sc.Engine + "/" + out.Class
